@@ -22,21 +22,25 @@ namespace AnySync.Driver.Space
 open AnySync.Space AnySync.Wire
 open AnySync.Driver.NodeConf (unhex)
 
+abbrev Str := List Char
+abbrev Bytes := Nat
+
 def str? (s : String) : Option Str := (unhex s).map String.toList
 
 structure Tables where
   h : List (Nat × Str) := []
   r : List (Nat × (Nat × Nat)) := []
-  hd : List (Nat × Header) := []
-  ar : List (Nat × AclRoot) := []
-  st : List (Nat × RootChange) := []
+  hd : List (Nat × Header Nat) := []
+  ar : List (Nat × AclRoot Nat Char) := []
+  st : List (Nat × RootChange Nat Char) := []
   o : List Nat := []
   k : List (Nat × Nat) := []
   v : List (Nat × Nat × Nat) := []
 
 def look {β : Type} (l : List (Nat × β)) (a : Nat) : Option β := (l.find? (·.1 = a)).map (·.2)
 
-def world (t : Tables) : World where
+def world (t : Tables) : World Nat Char where
+  ch c := c
   hash b := (look t.h b).getD ['?']
   decRaw b := look t.r b
   decHeader b := look t.hd b
@@ -98,7 +102,7 @@ def parseTables : List String → Tables → Option Tables
   | [], t => some t
   | e :: es, t => do let t ← addEntry t e; parseTables es t
 
-def parsePayload (s : String) : Option Payload := do
+def parsePayload (s : String) : Option (Payload Nat Char) := do
   let (a, b) ← kv s
   if a ≠ "p" then none
   match b.splitOn "," with
